@@ -128,7 +128,12 @@ def suite(ctx, name, docs):
             st["agree"] += 1
             continue
         if not (s and s[0].startswith(("SPIN", "EMIT"))) and charts.has_nested_targetless_pair(d):
-            st["known"] += 1; ctx.known("nested-targetless", ""); continue
+            # the recorded finding is precise: Appendix D with the transpilers' selection (every transition a candidate, static
+            # conflict table). Only a model that behaves exactly like that is the known deviation
+            _, T = E.run_batches(ctx, [E.case_line("spectq" if c01.classify(d) else "spect", d, [], "promela", NV)], want_harness=False, nproc=1)
+            t = abs_interp(T[0].split(" "), pseudo_ids(d))
+            if "DIVERGE" in T[0] or t == s:
+                st["known"] += 1; ctx.known("nested-targetless", ""); continue
         if s and s[0].startswith("SPIN"): st["spin_errors"] += 1
         st["violations"] += 1
         if len(ctx.violations) < 4:
